@@ -70,42 +70,7 @@ func runC21(c *Ctx) {
 	c.AsyncCaptures(c.Need("isaac/database.(*LeveldbPermanent).mergeTempDatabaseFromLeveldb"), "*.NewJob", 2)
 	c.AsyncCaptures(c.Need("isaac/database.(*LeveldbBlockWrite).SetStates"), "*.NewJob", 1)
 	c.Rule("R21.3", "MustPass")
-	if fn := c.Need("isaac/database.(*LeveldbPermanent).mergeTempDatabaseFromLeveldb"); fn != nil {
-		// the write that makes the block visible to loadLastBlockMap must come after worker.Wait():
-		// a batch committed by the merge itself after the Wait succeeded (the commit batch), and
-		// every record put into any other batch is not a block map record.
-		var commit []ssa.Instruction
-		var commitVar *ssa.Alloc
-		for _, in := range c.CallsTo(fn, "(*storage/leveldb.PrefixStorage).Batch") {
-			if a := loadedVar(CallArg(in, 0)); a != nil {
-				commit = append(commit, in)
-				commitVar = a
-			}
-		}
-		c.Report(fn, "the block map (what the loader keys on) is written after all other batches were waited for", fn.Pos(), len(commit) == 1,
-			fmt.Sprintf("%d batches committed by the merge itself (outside the concurrent jobs); all keys of the temp database, including the block map, are copied in parallel batches", len(commit)))
-		if len(commit) == 1 {
-			c.MP(fn, "the commit batch is written only after every other batch was written", commit, 1, GOk("*.Wait()"))
-			c.MP(fn, "last-value caches updated only after the commit batch was written", c.CallsD(fn, "db.updateLast(*)"), 1, GOkTo("(*storage/leveldb.PrefixStorage).Batch"))
-			c.MP(fn, "success only after the commit batch was written", c.SuccessReturns(fn), 1, GOkTo("(*storage/leveldb.PrefixStorage).Batch"))
-			isMap := "bytes.HasPrefix(k, isaacdatabase.leveldbKeyPrefixBlockMap[:])"
-			nput, ncommit := 0, 0
-			for _, f := range WithClosures(fn) {
-				for _, put := range c.CallsTo(f, "(*storage/leveldb.PrefixStorageBatch).Put") {
-					nput++
-					if a := loadedVar(callCommon(put).Args[0]); a != nil && a == commitVar {
-						ncommit++
-						continue
-					}
-					c.MP(f, "a record copied by a concurrent batch is not a block map record", []ssa.Instruction{put}, 1, GFalse(isMap))
-				}
-			}
-			c.Floor(fn, "records put into batches by the merge", nput, 2)
-			c.Floor(fn, "puts into the commit batch (other records may be held back too)", ncommit, 1)
-		}
-		c.MP(fn, "last-value caches updated only after every batch was written", c.CallsD(fn, "db.updateLast(*)"), 1, GOk("*.Wait()"))
-		c.MP(fn, "success only after every batch was written", c.SuccessReturns(fn), 1, GOk("*.Wait()"))
-	}
+	permCommitBatchRule(c)
 	// the final flush of the block writer's batch function: nothing that was queued may be dropped
 	c.Rule("R21.1", "MustPass")
 	batchSlotSaveRules(c)
@@ -307,4 +272,46 @@ func loadedVar(v ssa.Value) *ssa.Alloc {
 	}
 	a, _ := rootAlloc(u.X)
 	return a
+}
+
+// permCommitBatchRule (C21, C20, C19 under the caller's current rule): the LevelDB permanent merge
+// writes the block map — what makes the block the last block after a reopen — in a batch of its own,
+// after every other batch was written.
+func permCommitBatchRule(c *Ctx) {
+	if fn := c.Need("isaac/database.(*LeveldbPermanent).mergeTempDatabaseFromLeveldb"); fn != nil {
+		// the write that makes the block visible to loadLastBlockMap must come after worker.Wait():
+		// a batch committed by the merge itself after the Wait succeeded (the commit batch), and
+		// every record put into any other batch is not a block map record.
+		var commit []ssa.Instruction
+		var commitVar *ssa.Alloc
+		for _, in := range c.CallsTo(fn, "(*storage/leveldb.PrefixStorage).Batch") {
+			if a := loadedVar(CallArg(in, 0)); a != nil {
+				commit = append(commit, in)
+				commitVar = a
+			}
+		}
+		c.Report(fn, "the block map (what the loader keys on) is written after all other batches were waited for", fn.Pos(), len(commit) == 1,
+			fmt.Sprintf("%d batches committed by the merge itself (outside the concurrent jobs); all keys of the temp database, including the block map, are copied in parallel batches", len(commit)))
+		if len(commit) == 1 {
+			c.MP(fn, "the commit batch is written only after every other batch was written", commit, 1, GOk("*.Wait()"))
+			c.MP(fn, "last-value caches updated only after the commit batch was written", c.CallsD(fn, "db.updateLast(*)"), 1, GOkTo("(*storage/leveldb.PrefixStorage).Batch"))
+			c.MP(fn, "success only after the commit batch was written", c.SuccessReturns(fn), 1, GOkTo("(*storage/leveldb.PrefixStorage).Batch"))
+			isMap := "bytes.HasPrefix(k, isaacdatabase.leveldbKeyPrefixBlockMap[:])"
+			nput, ncommit := 0, 0
+			for _, f := range WithClosures(fn) {
+				for _, put := range c.CallsTo(f, "(*storage/leveldb.PrefixStorageBatch).Put") {
+					nput++
+					if a := loadedVar(callCommon(put).Args[0]); a != nil && a == commitVar {
+						ncommit++
+						continue
+					}
+					c.MP(f, "a record copied by a concurrent batch is not a block map record", []ssa.Instruction{put}, 1, GFalse(isMap))
+				}
+			}
+			c.Floor(fn, "records put into batches by the merge", nput, 2)
+			c.Floor(fn, "puts into the commit batch (other records may be held back too)", ncommit, 1)
+		}
+		c.MP(fn, "last-value caches updated only after every batch was written", c.CallsD(fn, "db.updateLast(*)"), 1, GOk("*.Wait()"))
+		c.MP(fn, "success only after every batch was written", c.SuccessReturns(fn), 1, GOk("*.Wait()"))
+	}
 }
